@@ -686,6 +686,48 @@ def _target_type(ctx, b, t, callee):
     return None
 
 
+def _only_metadata(b, local):
+    """every use of `local` in the body is the operand of PtrMetadata (the length of a slice), and it is never assigned elsewhere"""
+    uses = 0
+
+    def ops_of(rv):
+        k = rv['k']
+        if k in ('use', 'cast'):
+            return [rv.get('op')]
+        if k == 'unop':
+            return [rv.get('a')]
+        if k == 'binop':
+            return [rv['a'], rv['b']]
+        if k == 'aggregate':
+            return list(rv['ops'])
+        return []
+
+    def mentions(o):
+        return o is not None and o['k'] in ('copy', 'move') and o['place']['local'] == local
+    defs = 0
+    for bl in b['blocks']:
+        for st in bl['stmts']:
+            if st['k'] != 'assign':
+                continue
+            if st['place']['local'] == local:
+                defs += 1
+            rv = st['rv']
+            if rv['k'] in ('ref', 'rawptr', 'discr', 'len') and rv.get('place', {}).get('local') == local:
+                return False
+            for o in ops_of(rv):
+                if mentions(o):
+                    if rv['k'] == 'unop' and rv.get('op') == 'PtrMetadata' and not o['place']['proj']:
+                        uses += 1
+                    else:
+                        return False
+        t = bl['term']
+        if t['k'] == 'call' and any(mentions(a) for a in t['args']):
+            return False
+        if t['k'] == 'switch' and mentions(t['op']):
+            return False
+    return defs == 1 and uses >= 1
+
+
 def check(run, P, pid, want_classes=None):
     """Enumerate and classify all unsafe sites; report unclassified / failed ones under property `pid`."""
     ctx = Ctx(P)
@@ -709,6 +751,8 @@ def check(run, P, pid, want_classes=None):
                                     '' if ok else 'transmute in safe code', n))
                     n += 1
                 if s['k'] == 'assign' and s['rv']['k'] == 'rawptr':
+                    if not s['place']['proj'] and _only_metadata(b, s['place']['local']):
+                        continue        # `&raw const *slice` the compiler takes to read the LENGTH of a matched slice (PtrMetadata): no access through it
                     results.append((b, s['l'], 'raw pointer', '?', None, '', False, 'raw pointer taken in own code', n))
                     n += 1
             t = bl['term']
